@@ -28,6 +28,9 @@ def extra_templates(b):
             # line ends and other blanks are characters of the fragment like any other (inside and outside quotes)
             # numeric characters that are neither alphabetic nor ASCII digits are punctuation for the crate tokenizer
             "m\u00b2 * %s + %s" % (ph, ph.replace("1", "2")), "\u00bd%s" % ph, "x\uff11 = %s" % ph, "\u0663 %s \u2460" % ph,
+            # white space that is not one of the tokenizer's four blanks (form feed, vertical tab, no-break space,
+            # ideographic space, line separator) is punctuation: one token each, copied
+            "%s\x0c+ %s" % (ph, ph.replace("1", "2")), "a\x0b= %s" % ph, "%s\u00a0|| 'x'" % ph, "\u3000%s\u2028" % ph,
             "a\r\nb = %s" % ph, "'x\r\ny' = %s\r\n" % ph, "a\tb\n= %s" % ph, "\r%s\r" % ph, "'\n' || %s || '\r'" % ph]
 
 
